@@ -142,7 +142,7 @@ def strip_comments(s):
 
 # ---------------------------------------------------------------- harness
 
-def build_harness():
+def build_harness(pid):
     """go build -tags verif against REPO's current working tree. Returns (ok, path, log).
 
     The module file is generated per repository path (-modfile), so that a scratch copy can be
@@ -157,14 +157,14 @@ def build_harness():
             open(modfile, "w").write(tmpl)
         shutil.copy(os.path.join(REPO, "go.sum"), modfile[:-4] + ".sum")
         mine = os.path.join(BUILD, "vh.%d" % os.getpid())
-        rc, out, err, dt = run(["go", "build", "-modfile=" + modfile, "-tags", "verif", "-o", mine, "./cmd/vh"], cwd=h, env=GOENV, timeout=900)
+        rc, out, err, dt = run(["go", "build", "-modfile=" + modfile, "-tags", "verif", "-o", mine, "./cmd/" + pid.lower()], cwd=h, env=GOENV, timeout=900)
         if rc == 0:
             return True, mine, out + err
     return False, None, out + err
 
 
 def run_harness(exe, pid, seed, tier, outfile, extra=(), timeout=1500, race=False):
-    cmd = [exe, pid.lower(), "-seed", str(seed), "-tier", tier, "-out", outfile] + list(extra)
+    cmd = [exe, "-seed", str(seed), "-tier", tier, "-out", outfile] + list(extra)
     # the harness must not be able to exhaust memory on hostile length prefixes
     rc, out, err, dt = run(["bash", "-c", "ulimit -v 16000000; exec \"$@\"", "vh"] + cmd, timeout=timeout, env=GOENV)
     return rc, out, err, dt
